@@ -128,13 +128,68 @@ def _history_x(rng, n):
     return h
 
 
+class _GX(gen.G):
+    """Base program generator, except that the conditions of `when` / `or when` (the base generator builds them without the
+    flow index) may use what a top-level `match` may — in particular flow-object events `fx.Started()/.Finished()/.Failed()`
+    of flows that SOMEBODY ELSE started — and that such events are frequent. A `when` condition is evaluated inside a scope:
+    a FlowStarted event matched there registers the (foreign) flow in the scope of the matching flow, which stays open while
+    the rest of an `and` group is still waiting."""
+
+    _fi = None
+
+    def stmt(self, fi, depth, in_loop=False):
+        self._fi = fi
+        s = super().stmt(fi, depth, in_loop)
+        self._fi = fi
+        return s
+
+    def match_group(self, depth=2, fi=None):
+        r = self.rng
+        if fi is None:
+            fi = self._fi
+        if fi is not None and (depth <= 0 or r.random() < 0.5) and r.random() < 0.3:
+            j = self.callee(fi)
+            if j is not None:
+                self.feats.add("match-flow-event")
+                return ["objev", self.flows_meta[j]["name"], r.choice(["Started", "Started", "Finished", "Failed"]), []]
+        return super().match_group(depth, fi)
+
+    def program(self):
+        """Often with an *observer*: a flow Y that waits, inside a `when` condition, for the start (and something else) of a
+        flow X which the main flow starts later on — Y parks first, X starts while Y's scope is open."""
+        prog = super().program()
+        r = self.rng
+        n = len(prog["flows"])
+        if n >= 3 and r.random() < 0.75:
+            y = r.randrange(1, n - 1)
+            x = r.randrange(y + 1, n)
+            xname = self.flows_meta[x]["name"]
+            cond = ["objev", xname, r.choice(["Started", "Started", "Started", "Finished"]), []]
+            if r.random() < 0.8:
+                cond = [r.choice(["and", "and", "and", "or"]), cond, self.ev()]
+            cases = [[cond, [["send", r.choice(OUTS_), []]]]]
+            if r.random() < 0.5:
+                cases.append([self.ev(), [["send", r.choice(OUTS_), []]]])
+            prog["flows"][y]["body"].insert(0, ["when", cases, None])
+            yn, yargs = self.flow_call(y)
+            xn, xargs = self.flow_call(x)
+            between = [["match", self.ev()]] if r.random() < 0.3 else []
+            prog["flows"][0]["body"][0:0] = [["start_flow", yn, yargs, None]] + between + [["start_flow", xn, xargs, None]]
+            self.feats.add("observer")
+        return prog
+
+
+OUTS_ = gen.OUTS
+
+
 def _extra_cases(rng, tier):
     """Shapes the base generator (harness/impl/corevm_gen.py) does not reach — added AFTER the base cases, with the same rng,
     so the base distribution is unchanged:
       * `main-ends`: the main flow is NOT kept alive by a trailing `match Never()`: it finishes, is restarted by
         `_finish_flow` and stays a WAITING instance (head at position 0, registered under StartFlow) for the rest of the
         history — the only long-lived WAITING instances there are; clock jumps follow, so the clean-up sees them;
-      * `clocky`: ordinary programs under histories dense in clock jumps and save/restore round trips."""
+      * `clocky`: ordinary programs under histories dense in clock jumps and save/restore round trips;
+      * `when-objev`: programs of `_GX` (flow-object events of foreign flows inside `when` conditions and groups), same histories."""
     quick = tier == "quick"
     hmax = 12 if quick else 40
     out = []
@@ -153,6 +208,13 @@ def _extra_cases(rng, tier):
         prog = g.program()
         out.append({"kind": "gen", "prog": prog, "history": _history_x(rng, rng.randrange(3, hmax + 1)), "tie_seed": rng.randrange(1 << 30),
                     "feats": sorted(g.feats | {"clocky"})})
+    for i in range(100 if quick else 1000):
+        g = _GX(rng, rng.choice([3, 3, 4, 5]), rng.choice([1, 2, 2, 3]))
+        prog = g.program()
+        n1 = rng.randrange(1, hmax // 2 + 1)
+        n2 = rng.randrange(2, hmax // 2 + 2)
+        hist = gen.history(rng, n1) + [["clock", rng.choice([6, 6, 20])]] + _history_x(rng, n2)
+        out.append({"kind": "gen", "prog": prog, "history": hist, "tie_seed": rng.randrange(1 << 30), "feats": sorted(g.feats | {"when-objev"})})
     return out
 
 
